@@ -9,3 +9,6 @@ open EpgVerif.Props.C01
 #print axioms step
 #print axioms run_is_bloch_ensemble
 #print axioms rel_init
+#print axioms T_is_cartesian_rotation
+#print axioms relaxed_formula
+#print axioms E_solves_bloch
